@@ -205,6 +205,9 @@ PROPS["C18"] = dict(
     assumptions=["format_error_impl reached through the add-only cfg(lexical_verif) hook"],
 )
 
+KANI_BUCKETS = 3
+
+
 def build_jobs(prop, tier, wd, only=None):
     P = PROPS[prop]
     jobs = []
@@ -237,7 +240,13 @@ def build_jobs(prop, tier, wd, only=None):
         for fs in feats:
             # memory-heavy harnesses (observed peak >= 8 GB, @mem) run in their own, less parallel group
             groups.setdefault((fs, "heavy" if h.mem_gb >= 8 else ""), []).append(h)
+    # groups of different feature sets (own target directory each) run concurrently, at most KANI_BUCKETS at a time;
+    # the 12 CBMC jobs (44 GB budget) are divided between them
+    nb = max(1, min(KANI_BUCKETS, len({fs for (fs, cls) in groups})))
     for (fs, cls), lst in sorted(groups.items()):
         label = "kani[%s]%s" % (fs, "/" + cls if cls else "")
-        jobs.append((label, (lambda l=label, x=lst, f=fs: kunit.run_group(l, x, f, jobs=12)), "kani"))
+        per = max(1, 12 // nb)
+        if cls:
+            per = max(1, min(per, int((44 // nb) // max(h.mem_gb for h in lst))))
+        jobs.append((label, (lambda l=label, x=lst, f=fs, j=per: kunit.run_group(l, x, f, jobs=j)), "kani:" + fs))
     return jobs
